@@ -343,8 +343,13 @@ impl R {
                 if lower == "true" || lower == "false" {
                     self.term(t, Kind::Keyword, Slot::Ws, sep, true);
                 } else if t.starts_with('$') {
+                    // (the parser accepts single-line trivia between the radix prefix and the digits)
                     let has_alpha = t.chars().any(|c| c.is_ascii_alphabetic());
-                    self.term(t, Kind::Hex, Slot::Ws, sep, has_alpha);
+                    self.term("$", Kind::Punct, Slot::Ws, sep, false);
+                    self.term(&t[1..], Kind::Hex, Slot::Ws, "", has_alpha);
+                } else if t.starts_with('%') {
+                    self.term("%", Kind::Punct, Slot::Ws, sep, false);
+                    self.term(&t[1..], Kind::Number, Slot::Ws, "", false);
                 } else {
                     self.term(t, Kind::Number, Slot::Ws, sep, false);
                 }
